@@ -13,6 +13,7 @@ patterns, all output dtypes.  Sizes are unbounded in every theorem; `ValidU` / `
 dtypes are covered by the rounding theorems: every floating dtype is a `RoundingContract`.
 -/
 import PybropsModel.Lemmas.GenotypeRounding
+import PybropsModel.Lemmas.Binary64
 set_option autoImplicit false
 set_option linter.unusedSectionVars false
 set_option linter.unusedVariables false
@@ -370,6 +371,45 @@ theorem pafreq_rounded_exact_partial (h : RoundingContract rnd e) {nt nv : Nat} 
   · rw [r0, ← p0]; exact e0
   · rw [hc, hpoly, papolyAt_eq_apolyOf (α := ℚ) hv j]
 
+/-! ### a concrete IEEE rounding: binary64 round-to-nearest-even -/
+
+/-- **`Binary64.roundBinary64`** — round-to-nearest, ties-to-even on the binary64 grid (defined on ℚ by
+    `⌊log₂⌋`, scaling to `[2⁵², 2⁵³)` and rounding half to even) **is monotone and fixes 0, 1, 2⁻⁵³, 1 - 2⁻⁵³**:
+    the abstract contract is inhabited by the actual IEEE rounding, not only by exact arithmetic. -/
+theorem binary64_satisfies_contract : RoundingContract Binary64.roundBinary64 eps64 :=
+  Binary64.roundBinary64_contract
+
+/-- `div_form_exact` for the IEEE rounding itself: the binary64 quotient `c/m` (`c ≤ m ≤ 2⁵³`) is in [0,1],
+    equals 1 exactly when `c = m` and 0 exactly when `c = 0`. -/
+theorem div_form_exact_ieee (c m : ℕ) (hm : 0 < m) (hcm : c ≤ m) (hbig : m ≤ 2 ^ 53) :
+    (Binary64.roundBinary64 ((c : ℚ) / m) = 1 ↔ c = m) ∧ (Binary64.roundBinary64 ((c : ℚ) / m) = 0 ↔ c = 0)
+    ∧ 0 ≤ Binary64.roundBinary64 ((c : ℚ) / m) ∧ Binary64.roundBinary64 ((c : ℚ) / m) ≤ 1 :=
+  div_form_exact Binary64.roundBinary64_contract c m hm hcm (eps64_bound m hbig)
+
+/-- the float frequency of the code, with the IEEE rounding in place of the abstract one: for every valid
+    matrix with at most 2⁵³ chromosome copies -/
+theorem afreq_ieee_exact_partial {ploidy nv : Nat} {m : UMat} (hv : ValidU ploidy nv m)
+    (hbig : ploidy * m.length ≤ 2 ^ 53) (j : Nat) :
+    let p := afreqAt (α := ℚ) ploidy m j
+    (0 ≤ Binary64.roundBinary64 p ∧ Binary64.roundBinary64 p ≤ 1)
+    ∧ (Binary64.roundBinary64 p = 1 ↔ ∀ r ∈ m, entry r j = (ploidy : Int))
+    ∧ (Binary64.roundBinary64 p = 0 ↔ ∀ r ∈ m, entry r j = 0)
+    ∧ afixedOf (Binary64.roundBinary64 p) = !apolyOf (Binary64.roundBinary64 p) := by
+  intro p
+  obtain ⟨a, b, c, _, _, f⟩ :=
+    afreq_rounded_exact_partial Binary64.roundBinary64_contract hv (eps64_bound _ hbig) j
+  exact ⟨a, b, c, f⟩
+
+/-- **cross-check of the rounding model against Lean's own binary64 `Float`** (kernel-evaluated): on this table
+    of quotients — the boundary sizes, near-fixed counts, thirds, tenths, a 200 001-taxon population —
+    `Float` division returns exactly `roundBinary64 (c/m)`. -/
+theorem roundBinary64_agrees_with_Float_division :
+    ([(1, 3), (2, 3), (1, 10), (7, 10), (1, 49), (48, 49), (1, 98), (97, 98), (55, 98), (195, 196), (102, 103),
+      (106, 107), (160, 161), (186, 187), (393, 394), (196, 197), (1181, 1182), (1, 1200), (1199, 1200),
+      (99999, 100000), (400001, 400002), (1, 400002), (5, 7), (22, 7), (1, 9007199254740992),
+      (9007199254740991, 9007199254740992)].all
+      (fun p => Binary64.agreesWithFloatDiv p.1 p.2)) = true := by decide +kernel
+
 /-- **All requested floating dtypes.**  `afreq(dtype)` casts the binary64 frequency with `dtype.type(out)`;
     a cast to a narrower format composed with the binary64 rounding is again a rounding contract (with the
     narrow half-ulp `e₂`), so the frequency returned in that dtype is still in [0,1] and exactly 1 / 0
@@ -413,6 +453,49 @@ theorem recip_form_counterexample_sizes :
       let m : UMat := List.replicate n [1]
       !(afreqRecipAt (α := Float) 1 m 0 == 1.0) && (afreqAt (α := Float) 1 m 0 == 1.0)) = true := by
   decide +kernel
+
+/-- **Genotype-class frequencies: the division form would be exact** (observation, not what the code does — it
+    computes `(1/ntaxa)·count`): under any rounding contract, `rnd (count/ntaxa)` is in [0,1], is exactly 1
+    precisely when every taxon is in the class and exactly 0 precisely when none is (`ntaxa·e ≤ 1`). -/
+theorem gtfreq_div_form_exact_partial (h : RoundingContract rnd e) {ploidy nv : Nat} {m : UMat}
+    (hv : ValidU ploidy nv m) (hbig : ((m.length : ℕ) : ℚ) * e ≤ 1) (i j : Nat) :
+    (0 ≤ rnd (gtfreqDivAt (α := ℚ) m i j) ∧ rnd (gtfreqDivAt (α := ℚ) m i j) ≤ 1)
+    ∧ (rnd (gtfreqDivAt (α := ℚ) m i j) = 1 ↔ ∀ r ∈ m, entry r j = (i : Int))
+    ∧ (rnd (gtfreqDivAt (α := ℚ) m i j) = 0 ↔ ∀ r ∈ m, entry r j ≠ (i : Int)) := by
+  have hn : 0 < m.length := hv.2.1
+  have hle : gtcountAt m i j ≤ m.length := by
+    unfold gtcountAt; rw [← col_length m j]; exact List.count_le_length
+  obtain ⟨e1, e0, b0, b1⟩ := div_form_exact h (gtcountAt m i j) m.length hn hle hbig
+  unfold gtfreqDivAt
+  refine ⟨⟨b0, b1⟩, ?_, ?_⟩
+  · rw [e1]
+    unfold gtcountAt
+    rw [← col_length m j, List.count_eq_length]
+    simp only [col, List.mem_map, forall_exists_index, and_imp]
+    constructor
+    · intro hh r hr; exact (hh (entry r j) r hr rfl).symm
+    · intro hh b r hr hb; rw [← hb]; exact (hh r hr).symm
+  · rw [e0]
+    unfold gtcountAt
+    rw [List.count_eq_zero]
+    simp [col, eq_comm]
+
+/-- the reciprocal form the code uses for `gtfreq` misses 1 on binary64 when all 49 taxa are in one class
+    (0.9999999999999999; inside [0,1], within tolerance — outside the property's exactness clause, which is
+    about allele frequencies; recorded as an observation, a possible one-line change `gtcount / ntaxa`) -/
+theorem gtfreq_recip_form_counterexample :
+    let m : UMat := List.replicate 49 [2]
+    (gtfreqAt (α := Float) m 2 0 == 1.0) = false
+    ∧ (gtfreqAt (α := Float) m 2 0 < 1.0) = true
+    ∧ (gtfreqDivAt (α := Float) m 2 0 == 1.0) = true := by decide +kernel
+
+/-- the same two facts in the IEEE rounding model (no `Float` involved): the two-rounding reciprocal form
+    `rnd (rnd (1/49) · 49)` is `1 - 2⁻⁵³`, the one-rounding division form `rnd (98/98)` is 1 — and so is the
+    pre-repair allele frequency `rnd (rnd (1/98) · 98)` of defect D1 -/
+theorem recip_form_ieee_counterexample :
+    gtfreqF64At (List.replicate 49 [2]) 2 0 = 1 - (1 / 2) ^ 53
+    ∧ afreqF64At 2 (List.replicate 49 [2]) 0 = 1
+    ∧ Binary64.roundBinary64 (Binary64.roundBinary64 (1 / 98) * 98) = 1 - (1 / 2) ^ 53 := by decide +kernel
 
 /-- **Defect D2 (fixed in /repo)**: with `nphase + 1 = 1` classes (the pre-repair range of the unphased
     class) the class counts of a diploid locus do not sum to the number of taxa -/
